@@ -117,12 +117,23 @@ def applyOpA (f : V.Flat) (inName : Nat → String) (r : Rd) : Net.Op → Rd
 
 /-! ## Simulator side -/
 
-/-- a combinational leaf with one output: `propagate()` puts `py (values of ins)` on `out` -/
+/-- a combinational leaf: `propagate()` puts `py (values of ins)` on `out`, then (leaves with several outputs: BitsLSBF,
+    BitsMSBF) `f (values of ins)` on `w` for every `(w, f)` of `more`, in that order -/
 structure CLeaf where
   ins : List Nat
   out : Nat
   py : List Nat → Int
+  more : List (Nat × (List Nat → Int))
 deriving Inhabited
+
+/-- keep, for every wire, only the LAST put (the puts of one `propagate()` call are all computed from the same input
+    values, so a later put to the same wire simply overwrites an earlier one) -/
+def dedupLast {α : Type} : List (Nat × α) → List (Nat × α)
+  | [] => []
+  | x :: rest => if rest.any (·.1 == x.1) then dedupLast rest else x :: dedupLast rest
+
+/-- the (wire, value function) pairs of the leaf, one per wire -/
+def CLeaf.outs (c : CLeaf) : List (Nat × (List Nat → Int)) := dedupLast ((c.out, c.py) :: c.more)
 
 /-- a `Reg` child: optional enable / reset wires, reset value, wires d e r q -/
 structure RLeaf where
@@ -136,7 +147,7 @@ structure RLeaf where
 deriving Inhabited, Repr
 
 def CLeaf.sem (c : CLeaf) : Net.LeafSem Int :=
-  { prop := fun v s => (s, [(c.out, c.py (c.ins.map v))]),
+  { prop := fun v s => (s, c.outs.map fun of => (of.1, of.2 (c.ins.map v))),
     clock := fun _ s => (s, []) }
 
 /-- `Reg.clock` as generated from storage.py; the leaf state is `Reg.value` -/
@@ -208,27 +219,27 @@ def g (l : List Nat) (i : Nat) : Int := ((l.getD i 0 : Nat) : Int)
 /-- the simulator leaf: value handed to `Wire.put` by the GENERATED propagate() (`wd` because `Sub` reads its own
     output width) -/
 def Kind.leaf (wd : Nat → Nat) : Kind → CLeaf
-  | .and2 a b r => ⟨[a, b], r, fun l => (Gen.And2.step ⟨⟩ ⟨⟩ ⟨g l 0, g l 1⟩ ⟨⟩).2.r.getD 0⟩
-  | .or2 a b r => ⟨[a, b], r, fun l => (Gen.Or2.step ⟨⟩ ⟨⟩ ⟨g l 0, g l 1⟩ ⟨⟩).2.r.getD 0⟩
-  | .not1 a r => ⟨[a], r, fun l => (Gen.Not.step ⟨⟩ ⟨⟩ ⟨g l 0⟩ ⟨⟩).2.r.getD 0⟩
-  | .buf a r => ⟨[a], r, fun l => (Gen.Buf.step ⟨⟩ ⟨⟩ ⟨g l 0⟩ ⟨⟩).2.r.getD 0⟩
-  | .zext a r => ⟨[a], r, fun l => (Gen.ZeroExtend.step ⟨⟩ ⟨⟩ ⟨g l 0⟩ ⟨⟩).2.r.getD 0⟩
-  | .bit a k r => ⟨[a], r, fun l => (Gen.Bit.step ⟨k⟩ ⟨⟩ ⟨g l 0⟩ ⟨⟩).2.r.getD 0⟩
-  | .mux2 sel s0 s1 r => ⟨[sel, s1, s0], r, fun l => (Gen.Mux2.step ⟨⟩ ⟨⟩ ⟨g l 0, g l 1, g l 2⟩ ⟨⟩).2.r.getD 0⟩
-  | .const v r => ⟨[], r, fun _ => (Gen.Constant.step ⟨(v : Int)⟩ ⟨⟩ ⟨⟩ ⟨⟩).2.r.getD 0⟩
-  | .shl a n r => ⟨[a], r, fun l => (Gen.ShiftLeftConstant.step ⟨n⟩ ⟨⟩ ⟨g l 0⟩ ⟨⟩).2.r.getD 0⟩
-  | .shr a n r => ⟨[a], r, fun l => (Gen.ShiftRightConstant.step ⟨n⟩ ⟨⟩ ⟨g l 0⟩ ⟨⟩).2.r.getD 0⟩
-  | .addc a b ci r => ⟨[a, b, ci], r, fun l => (Gen.AddCarryIn.step ⟨⟩ ⟨⟩ ⟨g l 0, g l 1, g l 2⟩ ⟨⟩).2.r.getD 0⟩
-  | .sub a b r => ⟨[a, b], r, fun l => (Gen.Sub.step ⟨wd r⟩ ⟨⟩ ⟨g l 0, g l 1⟩ ⟨⟩).2.r.getD 0⟩
-  | .mul a b r => ⟨[a, b], r, fun l => (Gen.Mul.step ⟨⟩ ⟨⟩ ⟨g l 0, g l 1⟩ ⟨⟩).2.r.getD 0⟩
-  | .range a hi lo r => ⟨[a], r, fun l => (Gen.Range.step ⟨hi, lo⟩ ⟨⟩ ⟨g l 0⟩ ⟨⟩).2.r.getD 0⟩
+  | .and2 a b r => ⟨[a, b], r, fun l => (Gen.And2.step ⟨⟩ ⟨⟩ ⟨g l 0, g l 1⟩ ⟨⟩).2.r.getD 0, []⟩
+  | .or2 a b r => ⟨[a, b], r, fun l => (Gen.Or2.step ⟨⟩ ⟨⟩ ⟨g l 0, g l 1⟩ ⟨⟩).2.r.getD 0, []⟩
+  | .not1 a r => ⟨[a], r, fun l => (Gen.Not.step ⟨⟩ ⟨⟩ ⟨g l 0⟩ ⟨⟩).2.r.getD 0, []⟩
+  | .buf a r => ⟨[a], r, fun l => (Gen.Buf.step ⟨⟩ ⟨⟩ ⟨g l 0⟩ ⟨⟩).2.r.getD 0, []⟩
+  | .zext a r => ⟨[a], r, fun l => (Gen.ZeroExtend.step ⟨⟩ ⟨⟩ ⟨g l 0⟩ ⟨⟩).2.r.getD 0, []⟩
+  | .bit a k r => ⟨[a], r, fun l => (Gen.Bit.step ⟨k⟩ ⟨⟩ ⟨g l 0⟩ ⟨⟩).2.r.getD 0, []⟩
+  | .mux2 sel s0 s1 r => ⟨[sel, s1, s0], r, fun l => (Gen.Mux2.step ⟨⟩ ⟨⟩ ⟨g l 0, g l 1, g l 2⟩ ⟨⟩).2.r.getD 0, []⟩
+  | .const v r => ⟨[], r, fun _ => (Gen.Constant.step ⟨(v : Int)⟩ ⟨⟩ ⟨⟩ ⟨⟩).2.r.getD 0, []⟩
+  | .shl a n r => ⟨[a], r, fun l => (Gen.ShiftLeftConstant.step ⟨n⟩ ⟨⟩ ⟨g l 0⟩ ⟨⟩).2.r.getD 0, []⟩
+  | .shr a n r => ⟨[a], r, fun l => (Gen.ShiftRightConstant.step ⟨n⟩ ⟨⟩ ⟨g l 0⟩ ⟨⟩).2.r.getD 0, []⟩
+  | .addc a b ci r => ⟨[a, b, ci], r, fun l => (Gen.AddCarryIn.step ⟨⟩ ⟨⟩ ⟨g l 0, g l 1, g l 2⟩ ⟨⟩).2.r.getD 0, []⟩
+  | .sub a b r => ⟨[a, b], r, fun l => (Gen.Sub.step ⟨wd r⟩ ⟨⟩ ⟨g l 0, g l 1⟩ ⟨⟩).2.r.getD 0, []⟩
+  | .mul a b r => ⟨[a, b], r, fun l => (Gen.Mul.step ⟨⟩ ⟨⟩ ⟨g l 0, g l 1⟩ ⟨⟩).2.r.getD 0, []⟩
+  | .range a hi lo r => ⟨[a], r, fun l => (Gen.Range.step ⟨hi, lo⟩ ⟨⟩ ⟨g l 0⟩ ⟨⟩).2.r.getD 0, []⟩
   | .catm ins r => ⟨ins, r, fun l =>
-      (Gen.ConcatenateMSBF.step ⟨⟩ ⟨⟩ ⟨⟩ ⟨(ins.zip l).map fun p => ((wd p.1 : Int), (p.2 : Int))⟩).2.r.getD 0⟩
+      (Gen.ConcatenateMSBF.step ⟨⟩ ⟨⟩ ⟨⟩ ⟨(ins.zip l).map fun p => ((wd p.1 : Int), (p.2 : Int))⟩).2.r.getD 0, []⟩
   | .catl ins r => ⟨ins, r, fun l =>
-      (Gen.ConcatenateLSBF.step ⟨⟩ ⟨⟩ ⟨⟩ ⟨(ins.zip l).map fun p => ((wd p.1 : Int), (p.2 : Int))⟩).2.r.getD 0⟩
-  | .rept i r => ⟨[i], r, fun l => (Gen.Repeat.step ⟨wd r⟩ ⟨⟩ ⟨g l 0⟩ ⟨⟩).2.r.getD 0⟩
-  | .sext a r => ⟨[a], r, fun l => (Gen.SignExtend.step ⟨wd a, wd r⟩ ⟨⟩ ⟨g l 0⟩ ⟨⟩).2.r.getD 0⟩
-  | .smul a b r => ⟨[a, b], r, fun l => (Gen.SignedMul.step ⟨wd a, wd b, wd r⟩ ⟨⟩ ⟨g l 0, g l 1⟩ ⟨⟩).2.r.getD 0⟩
+      (Gen.ConcatenateLSBF.step ⟨⟩ ⟨⟩ ⟨⟩ ⟨(ins.zip l).map fun p => ((wd p.1 : Int), (p.2 : Int))⟩).2.r.getD 0, []⟩
+  | .rept i r => ⟨[i], r, fun l => (Gen.Repeat.step ⟨wd r⟩ ⟨⟩ ⟨g l 0⟩ ⟨⟩).2.r.getD 0, []⟩
+  | .sext a r => ⟨[a], r, fun l => (Gen.SignExtend.step ⟨wd a, wd r⟩ ⟨⟩ ⟨g l 0⟩ ⟨⟩).2.r.getD 0, []⟩
+  | .smul a b r => ⟨[a, b], r, fun l => (Gen.SignedMul.step ⟨wd a, wd b, wd r⟩ ⟨⟩ ⟨g l 0, g l 1⟩ ⟨⟩).2.r.getD 0, []⟩
 
 /-- unsized decimal literal, as the emitter prints Python ints (same as `C01.lit`) -/
 def lit (n : Nat) : Expr := .num none true n true
